@@ -85,7 +85,7 @@ CLAIMS = {
     note="bounded: length 3 (quick) / 4 exhaustive replay, 5 state-space over the reduced push alphabet, random walks of length 6 (thorough); frame trees of <= 5 frames x 2 names / <= 6 frames x 1 name for LiquidFrames; hook traces of every replayed length-3 history (quick: every k-th); values are scalars and one-key objects; trusted: TLC, the harness's encoding of observations.",
     tech=TECH_AB, ref="DESIGN.md 7 C18"),
  "C20": dict(
-    text="LiquidPartials specifies the lazy partial store with threads, a lock and the cache, with check / read-source / compile / insert as separate steps inside the critical section; TLC checks mutual exclusion, at most one compile per name, schedule-independent results, no poisoning, deadlock freedom and (under weak fairness) that every call returns, over all interleavings. Real threads sharing one Parser and its Templates are then recorded (Call / Miss-inside-the-lock / Return events ordered by the recorder's own mutex) and the trace is validated against the specification with TLC: a second miss of a cached name, two threads inside the source, a result that differs from the sequential result, or a call that never returns has no explanation.",
+    text="LiquidPartials specifies the lazy partial store with threads, a lock and the cache, with check / read-source / compile / insert as separate steps inside the critical section; TLC checks mutual exclusion, at most one compile per name, schedule-independent results, no poisoning, deadlock freedom and (under weak fairness) that every call returns, over all interleavings. Real threads sharing one Parser and its Templates are then recorded (Call / Miss-inside-the-lock / Return events ordered by the recorder's own mutex) and the trace is validated against the specification with TLC: a second miss of a cached name, two threads inside the source, a result that differs from the sequential result, or a call that never returns has no explanation. Thorough: a TLAPS proof (proofs/LiquidPartials_proofs.tla, inductive invariant, all obligations discharged by tlapm from an empty cache on every run) establishes mutual exclusion, at most one compile per name, no poisoned lock, cache = declarative meaning and schedule-independent results for any number of threads, names and calls.",
     note="model: 2-3 threads x 2 calls x 3 names exhaustively; implementation: 150 (quick) / 1500 (thorough) seeded runs of 2..16 threads; schedule coverage on the real code is statistical.",
     tech=TECH_AB, ref="DESIGN.md 7 C20"),
 }
